@@ -1,10 +1,12 @@
 (** C01 -- Certificate orders for a name are serialized and never repeated cluster-wide.
     Statements over the Issuance LTS (any number of threads, every schedule, every fault plan);
     proofs in Issuance/*.v.  Each theorem is followed by [Print Assumptions]. *)
-From Coq Require Import List Bool Arith Lia.
-From CM Require Import Issuance.Model Issuance.Proofs Issuance.Invariants Issuance.OwnFault
-  Issuance.NoReissueTL Issuance.NoReissue Issuance.AgreeTL Issuance.Agree Issuance.Refuted Issuance.Check Issuance.SpecLink.
+From Coq Require Import List Bool Arith Lia NArith.
+From CM Require Import Gen.Consts Issuance.Model Issuance.Proofs Issuance.Invariants Issuance.OwnFault
+  Issuance.NoReissueTL Issuance.NoReissue Issuance.AgreeTL Issuance.Agree Issuance.Refuted Issuance.Check Issuance.SpecLink Issuance.Takeover.
 Import ListNotations.
+Close Scope N_scope.
+Open Scope nat_scope.
 
 (** invariant behind F1: a request inside the locked region (re-check ... deferred release) owns
     its lock key in the lock table -- every reachable state, every fault plan *)
@@ -146,6 +148,38 @@ Theorem C01_obtain_fails_only_by_own_fault : forall cs st s t th a r,
 Proof. exact obtain_fails_only_by_own_fault. Qed.
 Print Assumptions C01_obtain_fails_only_by_own_fault.
 
+(** F4c for renewals (partial: the run contains no failing Store inside a save under that storage
+    name -- the excluded class is refuted below): storage holds the bundle from the start; whatever
+    the other requests are (any number, any kind, any spelling, forced or not), however they are
+    scheduled and however they fail -- issuer errors, event callbacks, cancellations, panics, also
+    in the request that holds the turn -- a request to renew (sync or async) returns an error or
+    panics only if a fault was injected into one of its own operations: a waiting renewal takes
+    over from a failed leader *)
+Theorem C01_renew_fails_only_by_own_fault_partial : forall cs st n es s,
+  bundle_complete st n -> runs (save_ok n) (init_state cs st) es s ->
+  forall t th a r, thread_at s t th -> c_prog (cfg th) = PRenew a -> c_vk (cfg th) = n ->
+    tpc th = PDone r -> r <> ROk -> flt th = true.
+Proof. exact renew_fails_only_by_own_fault. Qed.
+Print Assumptions C01_renew_fails_only_by_own_fault_partial.
+
+(** the hypotheses are met by a run in which the leader fails inside the issuer while a second
+    renewal waits for the lock; the waiter then takes its turn, issues and succeeds *)
+Example C01_takeover_nontrivial :
+  exists s es th0 th1,
+    runs (save_ok 0) (init_state [renew_canon; renew_canon] due_bundle) es s /\ bundle_complete due_bundle 0 /\
+    thread_at s 0 th0 /\ thread_at s 1 th1 /\ tpc th0 = PDone RErr /\ flt th0 = true /\
+    tpc th1 = PDone ROk /\ flt th1 = false /\
+    length (filter (fun e => match e_op e with OIssS _ => true | _ => false end) es) = 2.
+Proof.
+  destruct (run_sok 0 (init_state [renew_canon; renew_canon] due_bundle)
+              (sched [0;0;1;0;0;0;0] ++ [Label 0 FErr true] ++ sched (rep 2 0 ++ rep 12 1)))
+    as [[s es]|] eqn:R; [|vm_compute in R; discriminate].
+  exists s, es. pose proof (run_sok_runs _ _ _ _ _ R) as Hr.
+  vm_compute in R. inversion R; subst s es; clear R.
+  do 2 eexists. split; [exact Hr|]. split; [intros [] ; discriminate|].
+  unfold thread_at; simpl. split; [reflexivity|]. split; [reflexivity|]. repeat split; reflexivity.
+Qed.
+
 (** R: for ManageSync the same statement is false: its first load runs outside the issue lock *)
 Theorem C01_manage_load_races_renew_save_refuted :
   exists cs st ls s es th,
@@ -182,3 +216,16 @@ Proof.
     vm_compute in R. inversion R; subst s es; clear R.
     do 2 eexists. split; [exact Hr|]. unfold thread_at; simpl. split; [reflexivity|]. split; [reflexivity|]. auto.
 Qed.
+
+(** tie to the source (translator T, re-read on every run): the statement order the program
+    counters follow -- obtainCert: pre-check, checkStorage, acquireLock, and inside the attempt
+    closure the re-check before cert_obtaining and the save; renewCert: checkStorage, acquireLock,
+    and inside the closure load, managedCertNeedsRenewal, cert_obtaining, save -- and the lock key
+    "issue_cert" + "_" + name *)
+Theorem C01_source_order_matches_model :
+  c01_obtain_precheck_lock_recheck_order = true /\ c01_renew_lock_load_decide_order = true /\
+  c01_lock_key_is_op_underscore_name = true /\
+  c01_cert_issue_lock_op = [105; 115; 115; 117; 101; 95; 99; 101; 114; 116]%N.
+Proof. repeat split; reflexivity. Qed.
+Print Assumptions C01_source_order_matches_model.
+
